@@ -59,8 +59,12 @@ impl<const BITS: usize, const LIMBS: usize> Uint<BITS, LIMBS> {
         }
         let exp = self.bit_len();
         if exp >= BITS {
+            #[cfg(feature = "recmo_uint_verif")]
+            crate::verif_hooks::hit(68);
             return None;
         }
+        #[cfg(feature = "recmo_uint_verif")]
+        crate::verif_hooks::hit(69);
         Some(Self::ONE << exp)
     }
 }
